@@ -289,7 +289,7 @@ Lemma recover_zeros info k : hdr_wf info -> recover_state info (zeros k) = Some 
 Proof.
   intros Hhw. rewrite <- wst_c0.
   apply (recover_no_commit info c0 (zeros k)
-           {| ra_offsets := []; ra_pending := 0; ra_prev := None; ra_final := None |} []).
+           {| ra_offsets := []; ra_pending := 0; ra_commits := [] |} []).
   - exact Hhw.
   - apply hdr_inv_c0.
   - reflexivity.
